@@ -137,10 +137,18 @@ def run(ctx):
             if okc:
                 fields = dict(zip(r and prog.adts["builder::exec::CaptureData"]["variants"][0]["fields"] and [x["name"] for x in prog.adts["builder::exec::CaptureData"]["variants"][0]["fields"]], cd[2]))
                 def comp(t):
-                    t = M.strip(t, also=("std::option::Option::<T>::unwrap_or_else", "std::option::Option::<T>::unwrap_or_default", "std::option::Option::<T>::unwrap_or"))
-                    if t[0] == "field" and t[2] in ("0", "1") and M.strip(t[1])[0] == "call" and M.strip(t[1])[1] == src_call:
-                        return int(t[2])
-                    return None
+                    # the captured vector of component k, or an empty vector where that stream was not captured
+                    ks = set()
+                    for a_ in M.alts(t):
+                        a_ = M.noref(a_)
+                        if a_[0] == "call" and a_[1] in ("std::vec::Vec::<T>::new", "<std::vec::Vec<T> as std::default::Default>::default") and not a_[2]:
+                            continue
+                        a_ = M.strip(a_, also=("std::option::Option::<T>::unwrap_or_else", "std::option::Option::<T>::unwrap_or_default", "std::option::Option::<T>::unwrap_or"))
+                        if a_[0] == "field" and a_[2] in ("0", "1") and M.strip(a_[1])[0] == "call" and M.strip(a_[1])[1] == src_call:
+                            ks.add(int(a_[2]))
+                        else:
+                            ks.add(None)
+                    return next(iter(ks)) if len(ks) == 1 else None
                 okc = comp(fields["stdout"]) == 0 and comp(fields["stderr"]) == 1
             ctx.ob("R02.2", "%s:stdout<-.0,stderr<-.1" % path.split("::")[-2], okc, f.loc(bb, si), "CaptureData.stdout / .stderr must come from component 0 / 1 of the communicator's result")
     cs = prog.one("popen::Popen::communicate_start")
@@ -234,8 +242,13 @@ def run(ctx):
         if ok:
             for k in (0, 1):
                 c = tup[2][k]
-                okc = c[0] == "call" and c[1] == "std::option::Option::<T>::map" and c[2][1] == ("fnitem", "communicate::from_utf8_lossy") and c[2][0][0] == "field" and c[2][0][2] == str(k) \
-                    and M.strip(c[2][0][1])[0] == "call" and M.strip(c[2][0][1])[1] == "communicate::Communicator::read"
+                # Some(v) => Some(from_utf8_lossy(v)), None => None, over component k of read()
+                is_comp = lambda x, k=k: M.noref(x)[0] == "field" and M.noref(x)[2] == str(k) and M.strip(M.noref(x)[1])[0] == "call" and M.strip(M.noref(x)[1])[1] == "communicate::Communicator::read"
+                ob_ = option_body(prog, rs, Tq, c, is_comp)
+                okc = ob_ is not None and ob_.none_ok and ob_.payload is not None and len(ob_.results) == 1
+                if okc:
+                    v_ = M.noref(ob_.results[0][1])
+                    okc = v_[0] == "call" and v_[1] == "communicate::from_utf8_lossy" and M.noref(v_[2][0]) == M.noref(ob_.payload)
                 ok = ok and okc
         ctx.ob("R02.5", "read_string=lossy(read()).componentwise", ok, rs.loc(bb, si), "read_string decodes component k of read() into component k")
     rd = rs.calls_to(lambda f: M.callee_str(f) == "communicate::Communicator::read")
